@@ -427,8 +427,12 @@ func scCaseProg(rnd *rand.Rand, u [][]string, c scCase, full bool) scProg {
 			defs = append(defs, scParseDef(rnd, scShuffled(rnd, a, 1), rnd.Intn(2) == 0, rnd.Intn(2) == 0)) // 5
 		}
 		defs = append(defs,
-			scRefDef("union", 5, 2), // 6 keeps the text of 5 iff b adds nothing
-			scRefDef("union", 3, 2), // 7 adds nothing to a union
+			scRefDef("union", 5, 2),           // 6 keeps the text of 5 iff b adds nothing
+			scRefDef("union", 3, 2),           // 7 adds nothing to a union
+			scNewDef([][]string{u[len(u)-1]}), // 8
+			scRefDef("union", 1, 8),           // 9 a second union from receiver 1 (3 is the first)
+			scRefDef("union", 3, 8),           // 10 and from the union 3
+			scRefDef("union", 3, 1),           // 11 adds nothing to 3
 		)
 	}
 	return scProg{Src: "tlc", Defs: defs, Probes: probes}
@@ -457,11 +461,74 @@ func scRandTriple(rnd *rand.Rand, repos []string) []string {
 		return []string{[]string{"foo", "bar", "a:b", "a:b:c:d", ":", "x,y", "repository", "registry", "pull", "zz"}[rnd.Intn(10)], "", ""}
 	case r < 86: // empty repository name
 		return []string{"repository", "", []string{"pull", "push", "delete", ""}[rnd.Intn(4)]}
+	case r < 93: // other types on the resource names of the repositories, sorting before and after "repository"
+		return []string{[]string{"service", "zone", "repositoryx", "repositorz", "registry", "other", "repositor"}[rnd.Intn(7)],
+			repos[rnd.Intn(len(repos))], []string{"read", "pull", "x", "*"}[rnd.Intn(4)]}
 	}
 	return []string{scTypes[rnd.Intn(len(scTypes))], scRepos[rnd.Intn(len(scRepos))], scActions[rnd.Intn(len(scActions))]}
 }
 
+// scLate: a triple that is not a known repository/catalog scope, of a type sorting late.
+func scLate(rnd *rand.Rand, repos []string) []string {
+	return []string{[]string{"service", "zone", "zz", "repositoryx", "s", "t,u", "repository"}[rnd.Intn(7)],
+		repos[rnd.Intn(len(repos))], []string{"read", "x", "zap", "delete", "+"}[rnd.Intn(5)]}
+}
+
+// scFanProg: one receiver (built by NewScope, ParseScope or a union) and several unions from it,
+// all results kept; the spec's values are unaffected by the order of evaluation, the code's
+// must be too.
+func scFanProg(rnd *rand.Rand) scProg {
+	repos := []string{"a", "b", fmt.Sprintf("r%d", rnd.Intn(40))}
+	var base [][]string
+	for i, n := 0, rnd.Intn(10); i < n; i++ { // 0..9 entries that are not known scopes
+		t := scRandTriple(rnd, repos)
+		if rnd.Intn(2) == 0 {
+			t = []string{[]string{"aa", "foo", "other", "registry", "b,c"}[rnd.Intn(5)], scRepos[rnd.Intn(len(scRepos))], scActions[rnd.Intn(len(scActions))]}
+		}
+		base = append(base, t)
+	}
+	for i, n := 0, rnd.Intn(3); i < n; i++ {
+		base = append(base, []string{"repository", repos[rnd.Intn(len(repos))], []string{"pull", "push"}[rnd.Intn(2)]})
+	}
+	var defs []scDef
+	switch rnd.Intn(3) {
+	case 0:
+		defs = append(defs, scNewDef(scShuffled(rnd, base, rnd.Intn(2))))
+	case 1:
+		defs = append(defs, scParseDef(rnd, scShuffled(rnd, base, rnd.Intn(2)), rnd.Intn(2) == 0, rnd.Intn(2) == 0))
+	default:
+		h := len(base) / 2
+		defs = append(defs, scNewDef(base[:h]), scNewDef(base[h:]), scRefDef("union", 1, 2))
+	}
+	recv := len(defs)
+	probes := [][]string{{"registry", "catalog", "*"}, {"repository", "", "pull"}}
+	var results []int
+	for i, n := 0, 2+rnd.Intn(3); i < n; i++ {
+		add := [][]string{scLate(rnd, repos)}
+		if rnd.Intn(3) == 0 {
+			add = append(add, scLate(rnd, repos))
+		}
+		probes = append(probes, add[0])
+		defs = append(defs, scNewDef(add))
+		from := recv
+		if len(results) > 0 && rnd.Intn(3) == 0 {
+			from = results[rnd.Intn(len(results))] // a union result as receiver
+		}
+		defs = append(defs, scRefDef("union", from, len(defs)))
+		results = append(results, len(defs))
+	}
+	for _, t := range base {
+		if len(probes) < 10 {
+			probes = append(probes, t)
+		}
+	}
+	return scProg{Src: "rand", Defs: defs, Probes: probes}
+}
+
 func scRandProg(rnd *rand.Rand) scProg {
+	if rnd.Intn(5) == 0 {
+		return scFanProg(rnd)
+	}
 	// the repositories in play: a few, or many
 	var repos []string
 	nrepo := 1 + rnd.Intn(4)
